@@ -57,11 +57,18 @@ class Hist(C.Stream):
         {"ops": [{"op": "run", "limit": None}] * 3 + [{"op": "delcur"}, {"op": "run", "limit": 1}, {"op": "run", "limit": 1}]},
         {"ops": [{"op": "run", "limit": 0}] * 3},
         {"ops": [{"op": "run", "limit": 20}] * 23},
+        # "no limit" must really mean no limit, also past the default limit of 20 (seeded/C19-1)
+        {"ops": [{"op": "run", "limit": None}] * 25},
+        {"ops": [{"op": "run", "limit": None}] * 12 + [{"op": "delete", "n": 3}] + [{"op": "run", "limit": None}] * 14},
     ]
 
     def gen(self, rng, i):
         limit = rng.choice([None, 1, 2, 3, 5, 20, 2, 3, 0 if rng.random() < 0.3 else 4])
         n = rng.randint(3, 40 if rng.random() < 0.3 else 14)
+        if i % 12 == 5:
+            # long histories around the default limit (20): no limit, the default, and two-digit slot numbers
+            limit = rng.choice([None, None, 20, 12])
+            n = rng.randint(24, 48)
         ops = []
         runs = 0
         for _ in range(n):
